@@ -129,13 +129,15 @@ func oracle2(prog program, o *outcome, valuesOnly bool) []failure {
 		type st struct {
 			v           int
 			first, last int
-			done        bool
+			done        bool // completed, with a known interval of schedule steps
+			t, i        int
+			returned    bool // the call returned (known even without step intervals: free-running completion)
 		}
 		var stores []st
 		for t, ops := range prog {
 			for i, p := range ops {
 				if p.Kind == kStore && int(p.K) == k {
-					s := st{v: int(p.V), first: -1, last: -1}
+					s := st{v: int(p.V), first: -1, last: -1, t: t, i: i, returned: t < len(o.rets) && i < len(o.rets[t])}
 					for _, c := range o.calls {
 						if c.T == t && c.Idx == i {
 							s.first, s.last, s.done = c.First, c.Last, c.Done
@@ -183,7 +185,10 @@ func oracle2(prog program, o *outcome, valuesOnly bool) []failure {
 			continue
 		}
 		for j, s := range stores {
-			if j != match && s.done && stores[match].done && stores[match].last < s.first {
+			w := stores[match]
+			// s began after w had returned: by the step intervals, or because one goroutine issued both in this order
+			after := (s.done && w.done && w.last < s.first) || (s.t == w.t && w.i < s.i && s.returned)
+			if j != match && after {
 				add("store-lost", fmt.Sprintf("key %d: Store of %d began after the Store of %d had returned, yet the final Load gave %d", k, s.v, stores[match].v, stores[match].v))
 				narrow = true
 			}
